@@ -264,7 +264,16 @@ theorem simpleExec_le (m : ExprMap) (h : ExprOK m) (s : St) (st : Stmt) :
       | some r => right; rw [evalE_binOp_right m h s _ op v (by simp [he]), he]
   case assert_ c msg => simp only [mapStmt, simpleExec]; exact evalThen_le m h s c _
   case raise_ e c => simp only [mapStmt, simpleExec, raiseName_map m h e c]; exact Res.le_refl _
-  case functionDef => right; rfl
+  case functionDef a n args body decs ret tps =>
+    simp only [mapStmt, simpleExec]
+    by_cases hp : isPlainDef (.functionDef a n args body decs ret tps) = true
+    · right
+      have hp' : isPlainDef (.functionDef a n (m.args args) (mapBody m body) (decs.map m.e) (mapO m.e ret)
+          (if m.funcTypeParams then tps.map (mapTypeParam m.e) else tps)) = true := by
+        cases a <;> cases decs <;> cases ret <;> cases tps <;> simp [isPlainDef] at hp
+        cases m.funcTypeParams <;> simp [isPlainDef, mapO, h.params, hp]
+      simp only [hp, hp', if_true]
+    · left; simp only [hp, Bool.false_eq_true, if_false]
   case pass => exact Res.le_refl _
   case break_ => exact Res.le_refl _
   case continue_ => exact Res.le_refl _
